@@ -225,6 +225,7 @@ class Executor(object):
         self.feas_cache = {}
         self.stats = {"paths": 0, "forks": 0, "inlined": set(), "contracts_used": set()}
         self.seen_ob = set()
+        self.trivial = []  # obligations the term simplifier reduces to True
 
     # ------------------------------------------------------------------ obligations
     def oblige(self, path, name, goal, lineno=None, kind="post"):
@@ -233,10 +234,12 @@ class Executor(object):
                 return
             goal = z3.BoolVal(False)
         if z3.is_true(goal):
+            self.trivial.append((name, lineno, kind))
             return
         if not _has_quant(goal):
             g2 = z3.simplify(goal)
             if z3.is_true(g2):
+                self.trivial.append((name, lineno, kind))
                 return
         for c in path.pc:
             if c.eq(goal):
@@ -588,6 +591,8 @@ class Executor(object):
         v = self.program.global_value(fctx.module, e.id)
         if v is not NotImplemented:
             return [(p, v)]
+        if e.id in ("bytes", "str", "dict", "list", "int", "bool", "tuple", "set"):
+            return [(p, ClassVal(e.id, "builtins." + e.id))]
         raise Unsupported("unbound name %s (line %s)" % (e.id, e.lineno))
 
     def ev_Tuple(self, e, p, fctx):
